@@ -16,8 +16,9 @@ if os.path.exists(VENV_PY) and os.path.realpath(sys.executable) != os.path.realp
     os.execv(VENV_PY, [VENV_PY] + sys.argv)
 
 sys.path.insert(0, os.path.dirname(os.path.abspath(__file__)))
-os.environ.setdefault("OMP_NUM_THREADS", "4")
-os.environ.setdefault("OPENBLAS_NUM_THREADS", "4")
+os.environ.setdefault("OMP_NUM_THREADS", "1")
+os.environ.setdefault("OPENBLAS_NUM_THREADS", "1")
+os.environ.setdefault("MKL_NUM_THREADS", "1")
 import framework  # noqa: E402
 
 
